@@ -63,12 +63,13 @@ func genCfg(r *rand.Rand) cfg {
 }
 
 type caller struct {
-	Arrive  time.Duration `json:"arrive"`
-	Hold    time.Duration `json:"hold"`
-	Outcome int           `json:"outcome"`
-	ok      bool
-	granted time.Duration
-	done    bool
+	Arrive      time.Duration `json:"arrive"`
+	Hold        time.Duration `json:"hold"`
+	Outcome     int           `json:"outcome"`
+	CancelAfter time.Duration `json:"cancel_after"` // < 0: never; otherwise the context is cancelled that long after arrival
+	ok          bool
+	granted     time.Duration
+	done        atomic.Bool
 }
 
 func virtualCase(t *testing.T, idx int64, r *rand.Rand) {
@@ -76,13 +77,18 @@ func virtualCase(t *testing.T, idx int64, r *rand.Rand) {
 	cs := make([]*caller, c.Callers)
 	var spread, maxHold time.Duration
 	simultaneous := r.IntN(3) == 0
+	cancels := 0
 	for i := range cs {
-		cs[i] = &caller{Arrive: time.Duration(r.IntN(20)) * time.Millisecond, Hold: time.Duration(r.IntN(30)) * time.Millisecond, Outcome: r.IntN(3)}
+		cs[i] = &caller{Arrive: time.Duration(r.IntN(20)) * time.Millisecond, Hold: time.Duration(r.IntN(30)) * time.Millisecond, Outcome: r.IntN(3), CancelAfter: -1}
 		if simultaneous {
 			cs[i].Arrive = 0
 		}
 		if r.IntN(4) == 0 {
 			cs[i].Hold = 0
+		}
+		if r.IntN(4) == 0 { // gives up (or tries to) while possibly queued
+			cs[i].CancelAfter = time.Duration(r.IntN(40)) * time.Millisecond
+			cancels++
 		}
 		if cs[i].Arrive > spread {
 			spread = cs[i].Arrive
@@ -91,48 +97,70 @@ func virtualCase(t *testing.T, idx int64, r *rand.Rand) {
 			maxHold = cs[i].Hold
 		}
 	}
-	// longest possible wait: arrivals spread + everybody else's hold time; the timeout is above it
-	c.Timeout = 2*(spread+time.Duration(c.Callers)*maxHold) + time.Second
+	// longest possible wait: arrivals spread + everybody else's hold time
+	longest := spread + time.Duration(c.Callers)*maxHold
+	c.Timeout = 2*longest + time.Second
+	if c.Ordering == "random" {
+		// the blocking limiter's timeout is only a poll period: never a reason to refuse
+		c.Timeout = []time.Duration{0, 7 * time.Millisecond, c.Timeout}[r.IntN(3)]
+	}
 	var holders, maxHolders atomic.Int64
 	over := atomic.Bool{}
-	synctest.Test(t, func(t *testing.T) {
+	var stuck []int
+	bubble(t, func(t *testing.T) {
 		p := build(c)
 		start := time.Now()
-		var wg sync.WaitGroup
+		var cancelAll []context.CancelFunc
 		for _, cl := range cs {
 			cl := cl
-			wg.Add(1)
+			ctx, cancel := context.WithCancel(context.Background())
+			cancelAll = append(cancelAll, cancel)
 			go func() {
-				defer wg.Done()
 				time.Sleep(cl.Arrive)
-				l, ok := p.Acquire(context.Background())
-				cl.ok, cl.granted, cl.done = ok && l != nil, time.Since(start), true
-				if !cl.ok {
-					return
+				if cl.CancelAfter >= 0 {
+					go func() { time.Sleep(cl.CancelAfter); cancel() }()
 				}
-				h := holders.Add(1) // bracket: incremented after the grant returned, decremented before completion
-				for {
-					m := maxHolders.Load()
-					if h <= m || maxHolders.CompareAndSwap(m, h) {
-						break
+				l, ok := p.Acquire(ctx)
+				cl.ok, cl.granted = ok && l != nil, time.Since(start)
+				if cl.ok {
+					h := holders.Add(1) // bracket: incremented after the grant returned, decremented before completion
+					for {
+						m := maxHolders.Load()
+						if h <= m || maxHolders.CompareAndSwap(m, h) {
+							break
+						}
+					}
+					if h > int64(c.Limit) {
+						over.Store(true)
+					}
+					time.Sleep(cl.Hold)
+					holders.Add(-1)
+					switch cl.Outcome {
+					case 0:
+						l.OnSuccess()
+					case 1:
+						l.OnIgnore()
+					default:
+						l.OnDropped()
 					}
 				}
-				if h > int64(c.Limit) {
-					over.Store(true)
-				}
-				time.Sleep(cl.Hold)
-				holders.Add(-1)
-				switch cl.Outcome {
-				case 0:
-					l.OnSuccess()
-				case 1:
-					l.OnIgnore()
-				default:
-					l.OnDropped()
-				}
+				cl.done.Store(true)
 			}()
 		}
-		wg.Wait()
+		// horizon: every holder has released by now; whoever is still inside Acquire is stuck with capacity free
+		time.Sleep(longest + 500*time.Millisecond)
+		synctest.Wait()
+		for i, cl := range cs {
+			if !cl.done.Load() {
+				stuck = append(stuck, i)
+			}
+		}
+		for _, cancel := range cancelAll {
+			cancel()
+		}
+		synctest.Wait()
+		time.Sleep(c.Timeout + time.Second)
+		synctest.Wait()
 		if c.Ordering == "random" { // flush the blocking limiter's helper goroutines: one more grant/complete broadcasts
 			if l, ok := p.Acquire(context.Background()); ok {
 				l.OnIgnore()
@@ -142,23 +170,29 @@ func virtualCase(t *testing.T, idx int64, r *rand.Rand) {
 	})
 	rt.Count("virtual_scenarios", 1)
 	rt.Count("virtual_callers", int64(len(cs)))
+	rt.Count("virtual_callers_cancelling_while_queued", int64(cancels))
 	rt.Max("max:holders_seen_vs_limit_delta", maxHolders.Load()-int64(c.Limit))
 	name := fmt.Sprintf("%s-%s", c.Pool, c.Ordering)
 	if over.Load() {
 		rt.Violation("C19/"+name+"/more-holders-than-limit", idx, rt.J{"config": c, "max_holders": maxHolders.Load(), "callers": cs})
 		return
 	}
+	if len(stuck) > 0 {
+		rt.Violation("C19/"+name+"/caller-still-blocked-after-every-holder-released", idx, rt.J{"config": c, "stuck_callers": stuck, "callers": cs})
+		return
+	}
 	waited := 0
 	for i, cl := range cs {
-		if !cl.ok {
+		mayBeRefused := cl.CancelAfter >= 0 // a caller that cancelled may legitimately be refused (or served: pools with a queue ignore cancellation)
+		if !cl.ok && !mayBeRefused {
 			rt.Violation("C19/"+name+"/queued-caller-refused", idx, rt.J{"config": c, "caller": i, "arrived": cl.Arrive.String(), "returned": cl.granted.String(), "callers": cs})
 			return
 		}
-		if cl.granted-cl.Arrive > c.Timeout {
+		if cl.ok && c.Ordering != "random" && cl.granted-cl.Arrive > c.Timeout {
 			rt.Violation("C19/"+name+"/granted-later-than-timeout", idx, rt.J{"config": c, "caller": i, "waited": (cl.granted - cl.Arrive).String()})
 			return
 		}
-		if cl.granted > cl.Arrive {
+		if cl.ok && cl.granted > cl.Arrive {
 			waited++
 		}
 	}
@@ -167,7 +201,7 @@ func virtualCase(t *testing.T, idx int64, r *rand.Rand) {
 		rt.Count("virtual_scenarios_reaching_the_limit", 1)
 	}
 	if waited > 0 {
-		rt.Distinct(fmt.Sprintf("v|%+v|%v", c, cs[0]))
+		rt.Distinct(fmt.Sprintf("v|%+v|%v", c, *cs[0]))
 	}
 	if rt.WantSample() && idx%37 == 2 {
 		rt.Sample(rt.J{"mode": "virtual-time", "config": c, "callers_head": cs[:min(len(cs), 5)], "callers_that_waited": waited, "max_holders": maxHolders.Load()})
@@ -270,4 +304,9 @@ func TestCheck(t *testing.T) {
 			virtualCase(t, idx, r)
 		}
 	})
+}
+
+// bubble runs f in a synctest bubble; a bubble that cannot end (goroutines left blocked) is recorded, not fatal.
+func bubble(t *testing.T, f func(*testing.T)) {
+	rt.Bubble(func() { synctest.Test(t, f) }, "C19")
 }
